@@ -728,7 +728,9 @@ def probe_mutant(w, op):
     if not m2.sane():
         return
     R = w.R
-    mp = _twin_mapping(m2, rng, w.universe)
+    # the comparison partner keeps the identifiers in some cases (coincidences
+    # of particular identifiers, e.g. -1 next to a placeholder, stay in play)
+    mp = {a: a for a in m2.atoms} if rng.random() < 0.3 else _twin_mapping(m2, rng, w.universe)
     m2r = model.relabel(m2, mp)
     try:
         g2 = R.guarded(R.build, m2r, rng, rng)
